@@ -1,7 +1,8 @@
 (* Readable corollaries of Proofs/DepLive.v (resolver in front of a block-allocation executor). *)
 From Coq Require Import List Bool Arith.
 From EL Require Import Model.Exec Model.ExecInv Model.StepExec Model.DepExec Model.LiveSpec.
-From EL Require Import Proofs.DepSafe Proofs.DepLive.
+From EL Require Import Proofs.DepSafe Proofs.DepLive Proofs.DepLiveStep.
+From EL Require Proofs.StepLive.
 Import ListNotations.
 
 Lemma forallb_In {A} (f : A -> bool) l : forallb f l = true -> forall x, In x l -> f x = true.
@@ -36,4 +37,27 @@ Theorem wait_list_empty_at_inner_shutdown : forall c n prog d,
 Proof.
   intros c n prog d Hwf Hr Hs. pose proof (wait_list_drained c n prog d Hwf Hr) as H.
   unfold wait_list_drained_b in H. rewrite Hs in H. simpl in H. destruct (rwait d); [reflexivity | discriminate H].
+Qed.
+
+(* the same for the resolver in front of the per-call-process executor (requests that fit) *)
+Theorem dep_rest_step : forall c n prog d,
+  dinner c = IStep -> StepLive.fits (dx c) -> (forall i, xraises (dx c) i = false) ->
+  wf_prog n prog -> wf_deps c n -> dreach c (dinit n prog) d ->
+  denabled c d = [] ->
+  main (dbase d) = MEnd
+  /\ (forall i, In i (subm (dbase d)) -> fdone (getf (dbase d) i) = true)
+  /\ (forall p, In p (ps (dbase d)) -> palive p = false)
+  /\ (forall w, In w (ws (dbase d)) -> wdone w = true)
+  /\ rp d = RDone.
+Proof.
+  intros c n prog d Hi Hfit Hnf Hwf Hwd Hr Hen.
+  pose proof (dep_rest_state_step c n prog d Hi Hfit Hnf Hwf Hwd Hr) as H.
+  unfold drest_ok_b in H. rewrite Hen in H.
+  repeat rewrite andb_true_iff in H. destruct H as [[[[Hm Hf] Hp] Hw] Hrp].
+  repeat split.
+  - destruct (main (dbase d)); try discriminate Hm; reflexivity.
+  - apply forallb_In. exact Hf.
+  - intros p Hpi. pose proof (forallb_In _ _ Hp p Hpi) as Hx. cbv beta in Hx. destruct (palive p); [simpl in Hx; discriminate Hx | reflexivity].
+  - apply forallb_In. exact Hw.
+  - destruct (rp d); try discriminate Hrp; reflexivity.
 Qed.
